@@ -1,5 +1,9 @@
 """C19 — rate limits bound admitted traffic."""
-from vlib.runner import KH, run_kani_group
+import re
+
+import vlib.mir as _M
+from vlib.mo import MO, Arm, Ev, FnCheck, allof, call, follows, never, only_via, origin, stmt
+from vlib.runner import KH, run_kani_group, run_mir_obligations
 
 LEVEL = "other"
 EXPLANATION = ("Kani/CBMC bounded verdicts over the real TokenBucket (stubbed monotonic clock) + MIR path "
@@ -26,6 +30,61 @@ HARNESSES = [
 ]
 
 
+# ---------------------------------------------------------------------------------------------
+# O19.3: RateLimiter::check_limit / enforce_rate_limit path obligations (engine M).  The four try_consume calls are told
+# apart by the provenance of their receiver: the tenant bucket is reached through the Arc taken from the map, the global
+# bucket through the payload of `self.global_bucket`.
+# ---------------------------------------------------------------------------------------------
+CL = "RateLimiter::check_limit"
+_GLOBAL_RX = r"as Some\)\.0: Mutex<(rate_limiter::)?TokenBucket>"
+_TENANT_RX = r"Mutex::<TokenBucket>::lock\(deref\("
+
+
+def _recv(rx):
+    def also(fn, b, _txt):
+        a0 = (_M._split_top(b.args) or [""])[0]
+        return bool(re.search(rx, origin(fn, a0)))
+    return also
+
+
+TENANT_TC_CALL = Ev(r"= TokenBucket::try_consume\(", kind="call", also=_recv(_TENANT_RX), name="tenant bucket try_consume()")
+GLOBAL_TC_CALL = Ev(r"= TokenBucket::try_consume\(", kind="call", also=_recv(_GLOBAL_RX), name="global bucket try_consume()")
+TENANT_REFUND = Ev(r"= TokenBucket::refund_one\(", kind="call", also=_recv(_TENANT_RX), name="tenant bucket refund_one()")
+ANY_REFUND = call(r"= TokenBucket::refund_one\(", name="refund_one()")
+TENANT_OK = Arm(r"^call TokenBucket::try_consume\(.*" + _TENANT_RX, {"otherwise"}, name="tenant try_consume() == true")
+TENANT_NO = Arm(r"^call TokenBucket::try_consume\(.*" + _TENANT_RX, {"0"}, name="tenant try_consume() == false")
+GLOBAL_OK = Arm(r"^call TokenBucket::try_consume\(.*" + _GLOBAL_RX, {"otherwise"}, name="global try_consume() == true")
+GLOBAL_NO = Arm(r"^call TokenBucket::try_consume\(.*" + _GLOBAL_RX, {"0"}, name="global try_consume() == false")
+RET_TRUE = stmt(r"^_0 = const true;$", name="return true")
+RET_FALSE = stmt(r"^_0 = const false;$", name="return false")
+ERL = "KyroDBServiceImpl::enforce_rate_limit"
+
+MOS = [
+    MO("O19.3/tenant_first", "check_limit: the global bucket is consulted only after the tenant's own bucket admitted the request, and a request is admitted only through a successful tenant try_consume (fast path and first-request path)",
+       allof(only_via(CL, GLOBAL_TC_CALL, TENANT_OK),
+             only_via(CL, RET_TRUE, TENANT_OK),
+             never(CL, RET_TRUE, frm=TENANT_NO),
+             never(CL, RET_TRUE, frm=GLOBAL_NO),
+             never(CL, TENANT_TC_CALL, frm=TENANT_OK),
+             never(CL, GLOBAL_TC_CALL, frm=GLOBAL_OK)),
+       functions=[("rate_limiter.rs", "check_limit")]),
+    MO("O19.3/refund", "check_limit: every path from a global try_consume that does not take its `true` arm gives the tenant its token back (refund_one on the tenant bucket) before returning; no refund happens on any other path",
+       allof(follows(CL, GLOBAL_TC_CALL, TENANT_REFUND, exit="return", cut=[GLOBAL_OK]),
+             only_via(CL, ANY_REFUND, GLOBAL_NO),
+             never(CL, ANY_REFUND, frm=GLOBAL_OK),
+             never(CL, ANY_REFUND, frm=TENANT_NO)),
+       functions=[("rate_limiter.rs", "check_limit")]),
+]
+MOS_BIN = [
+    MO("O19.3/server", "enforce_rate_limit: with a tenant, Ok(()) is returned only on the `true` arm of RateLimiter::check_limit (a refusal becomes RESOURCE_EXHAUSTED)",
+       allof(only_via(ERL, stmt(r"^_0 = Result::<\(\), (tonic::)?Status>::Ok\(", name="Ok(())"), Arm(r"^call RateLimiter::check_limit$", {"otherwise"}, name="check_limit() == true"),
+                      frm=Arm(r"^discr\(arg\(_2: Option<&TenantContext>\)\)$", {"1"}, name="tenant is Some")),
+             lambda F: FnCheck(F, ERL).reachable(call(r"Status::resource_exhausted", name="Status::resource_exhausted"))),
+       functions=[("bin/kyrodb_server.rs", "enforce_rate_limit")], target="kyrodb_server"),
+]
+
+
 def run(tier, seed, notes):
-    obls = run_kani_group("C19", tier, "lib", {"rate_limiter.rs": "rate_limiter_proofs.rs"}, HARNESSES, jobs=8, notes=notes)
+    obls = run_mir_obligations("C19", tier, MOS + MOS_BIN, notes)
+    obls += run_kani_group("C19", tier, "lib", {"rate_limiter.rs": "rate_limiter_proofs.rs"}, HARNESSES, jobs=8, notes=notes)
     return obls
